@@ -375,6 +375,12 @@ def numpy_model_agrees_with_numpy_on_what_the_lemmas_use(x: float, i: int):
     assert isinstance(g[2], np.ndarray) and g[2][1] == 3 and g.shape == (3,)
     h = np.array([[x, x + 1.0], [x - 1.0, x + 2.0]]) == x
     assert h.shape == (2, 2) and h[0].any() and not h[0].all() and not h[1].any()
+    # flatten / ravel walk an array in LOGICAL row-major order, whatever its memory layout (a transposed view here)
+    t = np.array([[x, 1.0, 2.0], [3.0, 4.0, 5.0]])
+    ft = t.T.flatten()
+    assert ft.shape == (6,) and ft[0] == x and ft[1] == 3.0 and ft[2] == 1.0 and ft[5] == 5.0 and ft.dtype.kind == "f"
+    assert t.T.ravel()[1] == 3.0 and t.T.ravel(order="C")[4] == 2.0 and t.flatten(order="C")[1] == 1.0
+    assert np.array(t.T)[0][1] == 3.0 and np.array(t.T).shape == (3, 2) and np.array([[i, 2], [3, 4]]).T.flatten().dtype.kind == "i"
 
 
 @lemma(gen={"n": [2, 3], "mask": (1, 6), "isint": [True, False], "a": (-50, 50), "b": (-50, 50), "c": (-50, 50), "d": (-50, 50), "e": (-50, 50), "f": (-50, 50)})
